@@ -515,6 +515,28 @@ func genSchedule(rng *rand.Rand, family string, depth int) *Schedule {
 			}
 		}
 		return sc
+	case "smpretry":
+		// the same two users try again with the very same inputs (their applications hand the library the
+		// same buffers): the verdict of the second and third run is the verdict of the first
+		sc.Setup = "ake"
+		v := genIdx
+		pairs := [][2]int{{5, 6}, {6, 5}, {11, 16}, {5, 5}, {7, 8}, {9, 10}}
+		pr := pairs[(v/2)%len(pairs)]
+		for k := 0; k < 3; k++ {
+			ini, oth := ps[(v+k/2)%2], ps[1-(v+k/2)%2]
+			s1, s2 := pr[0], pr[1]
+			if ini == "B" {
+				s1, s2 = s2, s1
+			}
+			add(Step{A: "SMPStart", P: ini, S: s1, Q: (v/12)%2 == 1})
+			add(Step{A: "Deliver", P: oth})
+			add(Step{A: "SMPAnswer", P: oth, S: s2})
+			for j := 0; j < 3; j++ {
+				add(Step{A: "Deliver", P: ini})
+				add(Step{A: "Deliver", P: oth})
+			}
+		}
+		return sc
 	case "smpend":
 		// an SMP run in every stage and with every outcome (just started, waiting for the answer, half done,
 		// succeeded, failed, aborted by either side), then the session ends: End() by one side, the
@@ -907,7 +929,11 @@ func genSchedule(rng *rand.Rand, family string, depth int) *Schedule {
 		// possibly still in flight) the session is refreshed by a new key exchange; repeated
 		sc.Setup = "ake"
 		for d := 0; d < depth; d++ {
-			for k, n := 0, 1+rng.Intn(7); k < n; k++ {
+			n := 1 + rng.Intn(7)
+			if d > 0 && rng.Intn(3) == 0 {
+				n = 0 // nobody says anything between two key exchanges
+			}
+			for k := 0; k < n; k++ {
 				p := ps[rng.Intn(2)]
 				if rng.Intn(5) < 2 {
 					text++
